@@ -319,6 +319,18 @@ def check(ctx: Ctx) -> list[RuleResult]:
             seq_init = [n for n in own_nodes(init.node) if isinstance(n, ast.Assign) and norm(n.targets[0]) == "self._que_seq"]
             if not (seq_init and norm(seq_init[0].value) in ("count()", "itertools.count()")):
                 problems.append("_que_seq is not an itertools.count()")
+        # first-come-first-served within a priority: whatever sits between the priority and the unique counter is a sort key that
+        # outranks arrival order, so it may only be a clock read (non-decreasing in arrival order) - not a value computed from the
+        # caller's arguments (a deadline, a retry budget ...)
+        CLOCKS = {"dt.now", "datetime.now", "self._loop.time", "time.monotonic", "time.time", "time.perf_counter", "perf_counter", "monotonic", "loop.time", "asyncio.get_running_loop().time"}
+        if uniq:
+            for e in tup.elts[1 : uniq[0]]:
+                ex = expand(put_fn.node, e, pure_only=False)
+                if isinstance(ex, ast.Call) and norm(ex.func) in CLOCKS and not ex.args:
+                    continue
+                if isinstance(ex, ast.Constant):
+                    continue
+                problems.append(f"the key `{norm(e)}` (= {norm(ex)[:60]}) is compared before the arrival counter and is not a plain clock read: equal-priority commands start in the order of that value, not first-come-first-served")
         if problems:
             r5.fail(f"{sc.short}:queue-entry-key", sc.loc(pcall), "; ".join(problems), [f"entry: ({', '.join(elts)})"])
         else:
@@ -454,7 +466,59 @@ def check(ctx: Ctx) -> list[RuleResult]:
         else:
             r6.ok({"hop": f"{g.short} -> {norm(c.func)}", "qos_argument": norm(arg), "carried_because": why})
     out.append(r6)
+
+    # ---- R7 ---------------------------------------------------------------------------
+    # "once its caller has been given a result or an error it is never transmitted again": the dequeue loop tells a live entry from
+    # a dead one by `fut.done()` alone (R4), so the sender's wait must leave the entry's future done whenever the sender stops
+    # waiting - wait_for() on the bare future does that (it cancels the future on timeout and on cancellation of the sender); a
+    # shield()/asyncio.wait() in between does not, and then needs an explicit cancel on every way out
+    r7 = RuleResult("R7", "a sender that stops waiting retires its queue entry", "the queue entry's future is awaited through wait_for() unshielded, or cancelled in handlers for both TimeoutError and CancelledError", min_instances=1)
+    futs = set()
+    for put_fn, pcall in puts_in:
+        from .common import single_defs
+
+        arg0 = pcall.args[0] if pcall.args else None
+        if isinstance(arg0, ast.Name):
+            arg0 = single_defs(put_fn.node).get(arg0.id)
+        if isinstance(arg0, ast.Tuple) and arg0.elts and isinstance(arg0.elts[-1], ast.Name):
+            futs.add(arg0.elts[-1].id)
+    if not futs:
+        raise AnalysisError("send_cmd: the queue entry's future was not identified")
+    waits = [n for n in own_nodes(sc.node) if isinstance(n, ast.Await) and any(isinstance(x, ast.Name) and x.id in futs for x in ast.walk(n.value))]
+    if not waits:
+        raise AnalysisError("send_cmd: no await on the queue entry's future")
+    for w in waits:
+        r7.instances += 1
+        r7.nontrivial += 1
+        v = w.value
+        direct = isinstance(v, ast.Name) and v.id in futs
+        via_wait_for = isinstance(v, ast.Call) and norm(v.func).endswith("wait_for") and v.args and isinstance(v.args[0], ast.Name) and v.args[0].id in futs
+        if direct or via_wait_for:
+            r7.ok({"await": norm(w)[:70], "future_is_done_when_the_wait_ends": "cancelled by wait_for()/by the task's cancellation"})
+            continue
+        # shielded / asyncio.wait: both TimeoutError and CancelledError ways out have to cancel the future
+        tr = getattr(_stmt_of(w), "parent", None)
+        cancelled_in: set[str] = set()
+        if isinstance(tr, ast.Try):
+            for h in tr.handlers:
+                names_h = {norm(x) for x in ([h.type] if h.type is not None and not isinstance(h.type, ast.Tuple) else (h.type.elts if h.type is not None else []))}
+                cancels = any(isinstance(c, ast.Call) and isinstance(c.func, ast.Attribute) and c.func.attr == "cancel" and isinstance(c.func.value, ast.Name) and c.func.value.id in futs and getattr(c, "parent", None) is not None and isinstance(getattr(c, "parent", None), ast.Expr) and getattr(getattr(c, "parent", None), "parent", None) is h for c in ast.walk(h))
+                if cancels:
+                    cancelled_in |= {x.rsplit(".", 1)[-1] for x in names_h} or {"BaseException"}
+            if tr.finalbody and any(isinstance(c, ast.Call) and isinstance(c.func, ast.Attribute) and c.func.attr == "cancel" and isinstance(c.func.value, ast.Name) and c.func.value.id in futs for st in tr.finalbody for c in ast.walk(st)):
+                cancelled_in |= {"TimeoutError", "CancelledError"}
+        if {"TimeoutError", "CancelledError"} <= cancelled_in or "BaseException" in cancelled_in:
+            r7.ok({"await": norm(w)[:70], "future_cancelled_in_handlers": sorted(cancelled_in)})
+        else:
+            r7.fail(f"{sc.short}:entry-outlives-its-sender", sc.loc(w), f"`{norm(w)[:80]}` does not cancel the queue entry's future when the sender stops waiting (timeout while still queued, or cancellation): the dequeue loop skips only entries whose future is done, so the command is transmitted - and retried - after its caller was already given an error")
+    out.append(r7)
     return out
+
+
+def _stmt_of(n: ast.AST) -> ast.AST:
+    while n is not None and not isinstance(n, ast.stmt):
+        n = getattr(n, "parent", None)  # type: ignore[assignment]
+    return n
 
 
 def _is_budget_test(t: ast.AST) -> bool:
